@@ -76,7 +76,7 @@ def model_mismatches(cases, outs, name="c19"):
     return bad
 
 
-IDENT_RE = re.compile(r"^[A-Za-z_][A-Za-z0-9_]*$")
+IDENT_RE = re.compile(r"\A[A-Za-z_][A-Za-z0-9_]*\Z")
 
 
 def property_search(cases, outs):
@@ -89,7 +89,7 @@ def property_search(cases, outs):
         if not IDENT_RE.match(txt) or txt in GO_KEYWORDS:
             wit.append({"kind": "illegal-go-identifier", "input_codepoints": s, "input": src, "go_ident": txt})
             continue
-        if re.match(r"^[A-Za-z][A-Za-z0-9_]*$", src) and src not in GO_KEYWORDS and txt != src:
+        if re.match(r"\A[A-Za-z][A-Za-z0-9_]*\Z", src) and src not in GO_KEYWORDS and txt != src:
             wit.append({"kind": "user-identifier-not-verbatim", "input": src, "go_ident": txt})
         if all((chr(c).isascii() and chr(c).isalnum()) or c == 35 for c in s):
             if txt in seen and seen[txt] != s:
